@@ -471,6 +471,27 @@ func init() {
 			}
 		})
 	}
+	// the causing reason survives later deaths: m2 is busy in a callback when m1 crashes with E (the application
+	// starts stopping); m2 then fails with X instead of obeying the shutdown request
+	for mname, mode := range modes {
+		mode := mode
+		race("second-crash-while-stopping-"+mname, mode, 1, 2, true, func(w *World, app *appB) func() {
+			g := &vsched.Gate{}
+			w.Setup("park-m2", func() { w.n.Send(w.pids["m2"], g) })
+			w.Setup("crash-m1", func() { w.n.Send(w.pids["m1"], "fail") })
+			w.ex.Thread("OPEN", func() { g.Open() })
+			return func() {
+				if len(app.terms) != 1 {
+					return // counted by the common oracle
+				}
+				// temporary: the application ends with its last member, the statement does not fix the reason
+				if mode != gen.ApplicationModeTemporary && app.terms[0] != "E" {
+					w.ex.Fail("terminate-reason", "m1 failed with E, which made the %s application stop; m2 failed with X while it was stopping; Terminate got %q", mode, app.terms[0])
+				}
+				w.Out("terms=%v", app.terms)
+			}
+		})
+	}
 	// unload against a stop in progress, a crash-triggered stop and a start
 	for mname, mode := range modes {
 		mode := mode
